@@ -56,7 +56,14 @@ pub fn decode(data: &[u8]) -> Option<History> {
             6..=8 => Op::Quiet(s),
             9 => Op::Noisy(s),
             10..=12 => Op::Special(s),
-            13 | 14 => Op::Undo,
+            13 => Op::Undo,
+            14 => {
+                if s & 7 == 0 {
+                    Op::CloneBoard
+                } else {
+                    Op::Undo
+                }
+            }
             _ => Op::Unwind((s % 40) as u8 + 1),
         });
     }
